@@ -691,12 +691,19 @@ def r10_loader_complete(ctx, rule):
     lp = loops[0]
     bad = False
     n = 0
+    # the skip flag by its role: a local that is a boolean constant everywhere, set to True inside a handler of the line loop
+    FLAG = 'error_flag'
+    for nm_, lst_ in stores_in(fn).items():
+        vals_ = [v_ for s_, v_ in lst_ if v_ is not None]
+        if vals_ and all(isinstance(const(v_), bool) for v_ in vals_) and any(
+                const(v_) is True and any(isinstance(a, ast.ExceptHandler) for a in enclosing_stmt_chain(mod, s_)) for s_, v_ in lst_ if v_ is not None):
+            FLAG = nm_
     for st in walk_stmts(lp.body):
         if isinstance(st, (ast.Continue, ast.Break, ast.Return)):
             n += 1
             in_handler = any(isinstance(a, ast.ExceptHandler) for a in enclosing_stmt_chain(mod, st))
             conds = [(U(t), p_) for t, p_ in path_conditions(mod, st, stop=lp)]
-            ok_skip = in_handler or conds == [('error_flag', True)]
+            ok_skip = in_handler or conds == [(FLAG, True)]
             if not ok_skip and isinstance(st, ast.Continue):
                 # not a skip at all if the value of this line was stored earlier in the same block
                 par = mod.parents.get(id(st))
@@ -727,28 +734,28 @@ def r10_loader_complete(ctx, rule):
                 ctx.bad(rule, q, 'loader consumes a line outside its error recovery: ' + U(c)[:60],
                         'every line of a terminal file is a value of the grammar', None, c)
     # the skip flag: False before the first line, set in the handler only, cleared when it has been honoured
-    flag_sets = [(s_, v) for s_, v in stores_in(fn).get('error_flag', []) if v is not None]
+    flag_sets = [(s_, v) for s_, v in stores_in(fn).get(FLAG, []) if v is not None]
     if flag_sets:
         first = min(flag_sets, key=lambda t: t[0].lineno)
         if const(first[1]) is not False:
             bad = True
-            ctx.bad(rule, q, 'error_flag starts as %s' % U(first[1]), 'the first line of a terminal file is its most probable value: nothing is '
+            ctx.bad(rule, q, '%s starts as %s' % (FLAG, U(first[1])), 'the first line of a terminal file is its most probable value: nothing is '
                     'skipped before a malformed line has been seen', None, first[0], firm=True)
         for s_, v in flag_sets:
             in_h = any(isinstance(a, ast.ExceptHandler) for a in enclosing_stmt_chain(mod, s_))
             conds_ = [(U(t), p_) for t, p_ in path_conditions(mod, s_, stop=lp)] if any(x is s_ for b_ in lp.body for x in ast.walk(b_)) else None
             if const(v) is True and not in_h and s_ is not first[0]:
                 bad = True
-                ctx.bad(rule, q, 'error_flag set outside the error recovery: ' + U(s_)[:50], 'only a malformed line makes the loader skip its '
+                ctx.bad(rule, q, FLAG + ' set outside the error recovery: ' + U(s_)[:50], 'only a malformed line makes the loader skip its '
                         'successor', None, s_, firm=True)
-            if const(v) is False and conds_ == [('error_flag', True)]:
+            if const(v) is False and conds_ == [(FLAG, True)]:
                 pass
-        skips = [st_ for st_ in lp.body if isinstance(st_, ast.If) and 'error_flag' in U(st_.test)]
+        skips = [st_ for st_ in lp.body if isinstance(st_, ast.If) and FLAG in U(st_.test)]
         for st_ in skips:
-            if U(st_.test) != 'error_flag':
+            if U(st_.test) != FLAG:
                 bad = True
                 ctx.bad(rule, q, 'a line is skipped when ' + U(st_.test), 'a line is skipped only after a malformed one', None, st_, firm=True)
-            elif not any(isinstance(x, ast.Assign) and U(x.targets[0]) == 'error_flag' and const(x.value) is False for x in st_.body):
+            elif not any(isinstance(x, ast.Assign) and U(x.targets[0]) == FLAG and const(x.value) is False for x in st_.body):
                 bad = True
                 ctx.bad(rule, q, 'the skip flag is not cleared when it is honoured', 'one malformed line costs one following line, not the rest '
                         'of the file', None, st_, firm=True)
